@@ -588,6 +588,17 @@ def md_transition(cls_name, rep, op):
     d2 = match[0][1]
     for name, e, g in compare_reads(md_reads_model(d2), md_reads_real(md)):
         out.append(viol(cls_name, "read:" + name.split(":")[0], op[0], read=name, exp=e, got=g, after=got_rep, **base))
+    # what the conversions hand out are copies: changing them must not reach the container
+    try:
+        for l in md.to_dict(flat=False).values():
+            l.append("ALIAS")
+        for _k, l in md.lists():
+            l.append("ALIAS")
+        for k in K:
+            md.getlist(k).append("ALIAS")
+        md.to_dict()["zz"] = "ALIAS"
+    except Exception:  # noqa: BLE001 - failures of the reads themselves are reported above
+        pass
     if md_canon(md) != got_rep:
         out.append(viol(cls_name, "reads-mutate", op[0], exp=got_rep, got=md_canon(md), **base))
     return out, got_rep, (got_rep != rep or res[0] == "exc")
@@ -1311,6 +1322,10 @@ def hd_transition(rep, op):
         return out, None, True
     for name, e, g in compare_reads(hd_reads_model(match[0][1]), hd_reads_real(h)):
         out.append(viol(fam, "read:" + name.split(":")[0], op[0], read=name, exp=e, got=g, after=got, **base))
+    for k in K:
+        h.getlist(k).append("ALIAS")
+    h.to_wsgi_list().append(("zz", "ALIAS"))
+    h[:].add("zz", "ALIAS")
     if hd_canon(h) != got:
         out.append(viol(fam, "reads-mutate", op[0], exp=got, got=hd_canon(h), **base))
     return out, got, (got != rep or res[0] == "exc")
